@@ -246,6 +246,12 @@ class Reporter:
         self.known_hits = {}      # finding id -> example
         self.known = [k for k in load_known() if k.get("property") == pid and k.get("status") == "open"]
         self.notes = []
+        REPLAYS.mkdir(exist_ok=True)
+        for old in REPLAYS.glob("%s-*.json" % pid):
+            try:
+                old.unlink()
+            except OSError:
+                pass
 
     def known_region(self, region):
         for k in self.known:
